@@ -340,7 +340,7 @@ def work(part, chunk):
 def run(ctx):
     from vt.par import pmap
     ro_cfgs = [(), ("R1",), ("R2",), ("R1", "R2"), ("R2", "R1")] if ctx.thorough else [(), ("R1", "R2"), ("R2", "R1")]
-    depth, cap = (12, 3000) if ctx.thorough else (5, 250)
+    depth, cap = (8, 400) if ctx.thorough else (5, 250)
     items = [(ro, w, depth, cap, not ctx.thorough) for ro in ro_cfgs for w in ("debug", "vworker")]
     ctx.rule = ("one BFS per (ordered read-only cache list, worker); ops = submit(4 tasks x {plain, rerun+propagate, rerun "
                 "without propagate}) and plant(leftover directory for an absent identity); run to the fixed point of canonical "
